@@ -120,11 +120,10 @@ Theorem enum_index_is_runtime_value : forall e z,
 Proof. exact EnumredProofs.enum_index_is_runtime_value. Qed.
 Print Assumptions enum_index_is_runtime_value.
 
-(* enumred.c still divides with the raw C operator: INT_MIN / -1 traps in the compiler *)
-Theorem enumred_never_crashes_refuted :
-  exists e v, ty_of e = Some TInt /\ int_only e = true /\ efold e = FCrash /\ rt_eval e = Val v.
-Proof. exact EnumredProofs.enumred_never_crashes_refuted. Qed.
-Print Assumptions enumred_never_crashes_refuted.
+(* enumred.c never traps (expr_div_enumred / expr_mod_enumred use (b == -1) ? -a : a / b) *)
+Theorem efold_never_crashes : forall e, efold e <> FCrash.
+Proof. exact EnumredProofs.efold_never_crashes. Qed.
+Print Assumptions efold_never_crashes.
 
 (* the theorems apply to everything the typechecker accepts *)
 Theorem elab_well_typed : forall s e t, elab s = Some (e, t) -> ty_of e = Some t.
